@@ -49,6 +49,7 @@ def run(R):
                      "send_pixels must emit one Interface::send_pixels::<N> over the caller's stream mapped through a function whose value "
                      "on a symbolic pixel equals the same oracle (so fills and streams agree). N must equal the oracle's word count. "
                      "COLMOD vs colour type per model is obligation C11c-pixel-format.")
+    R.witnesses('W2', 'C05d-witness-no-rgb666-on-16bit-bus')
     for cfg in R.configs:
         F = R.facts(cfg)
         impls = [i for i in F.impls_by_trait.get(TR.IPF, [])]
